@@ -17,9 +17,32 @@ def wordbits(f):
 
 
 PROPS = {}
+NOTES = ("All checks are solver-based: gosmt symbolically executes the go/ssa form of /repo's current working tree "
+         "(build tag purego) together with an in-package harness injected by overlay, and z3/cvc5 decide every "
+         "obligation. Bounds and what lies outside them are stated per check in level_note and in the evidence file. "
+         "Goroutine schedules, AVX-512/arm64 assembly and text formats are outside this technique (DESIGN.md §4).")
+
+for _p in ["C%02d" % i for i in range(1, 21)]:
+    PROPS[_p] = dict(jobs=[], na_reason="check not built yet in this session (plan: DESIGN.md §3)")
 
 PROPS["C01"] = dict(
     jobs=[Job(f, ["C01/common.go.tmpl", "C01/linear.go.tmpl"], params=dict(WordBits=wordbits(f))) for f in ALL_FIELDS],
+    level_text="Bounded proof: for each of the 23 field packages the listed arithmetic entry points are symbolically "
+               "executed at full width (all limbs symbolic, operands < q) and compared with math/big oracles; every "
+               "obligation is unsat in z3/cvc5.",
+    level_note="Trusted: go/ssa, the gosmt encoder (integers as mathematical Ints with explicit wrap-around), the solvers. "
+               "purego build is what is encoded.",
     explanation="",
-    assumptions=[],
+    bounds="full-width operands; no loops except fixed limb loops",
+    outside="assembly back ends (C09)",
+    assumptions=["operands are reduced (integer value of the limbs < q)"],
+)
+
+PROPS["C13"] = dict(
+    jobs=[Job("field/hash", ["common/vhash.go.tmpl", "C13/expand.go.tmpl"])],
+    level_text="Bounded proof of expand_message_xmd against the RFC 9380 recurrence with the hash as a free function.",
+    level_note="SHA-256 replaced by an uninterpreted streaming hash (sizes 32/64 kept).",
+    bounds="lenInBytes 0..70 (content), >8160 (error path); len(msg),len(dst) <= 2; len(dst) 253..258",
+    outside="RFC byte vectors (need concrete SHA-256)",
+    assumptions=["hash = uninterpreted streaming function"],
 )
